@@ -325,6 +325,17 @@ func commissionFromPool(swapChecker swap.EditableChecker, coin CalculateCoin, ba
 			Info: EncodeError(code.NewInsufficientLiquidity(coin.ID().String(), coms.String(), baseCoin.ID().String(), commissionInBaseCoin.String(), reserve0.String(), reserve1.String())),
 		}
 	}
+	// the amount is computed backwards from the wanted base-coin value; for dust values the
+	// rounding of the two directions differs and selling the computed amount may yield nothing,
+	// which the pool refuses to execute (it panics): such a commission cannot be paid through the pool
+	if out, _ := swapChecker.CalculateBuyForSellWithOrders(coms); out == nil || out.Sign() != 1 {
+		reserve0, reserve1 := swapChecker.Reserves()
+		return nil, &Response{
+			Code: code.InsufficientLiquidity,
+			Log:  fmt.Sprintf("swap pool has reserves %s %s and %d %s, you wanted buy %s %s", reserve0, coin.GetFullSymbol(), reserve1, baseCoin.GetFullSymbol(), commissionInBaseCoin, coin.GetFullSymbol()),
+			Info: EncodeError(code.NewInsufficientLiquidity(coin.ID().String(), coms.String(), baseCoin.ID().String(), commissionInBaseCoin.String(), reserve0.String(), reserve1.String())),
+		}
+	}
 	return coms, nil
 }
 
